@@ -8,7 +8,7 @@
 EXTENDS Terms, Json
 a == A("a")
 b == A("b")
-Elems == { a, A("ab"), b, I(1), I(2), Fl(2), Fl(4), V(1), V(2), C("f", <<a>>), C("f", <<V(1)>>), C("g", <<a, b>>), C("f", <<b>>), MkList(<<a>>), MkList(<<a, b>>), Nil }
+Elems == { a, A("ab"), b, A(""), I(1), I(2), Fl(2), Fl(4), V(1), V(2), C("f", <<a>>), C("f", <<V(1)>>), C("g", <<a, b>>), C("f", <<b>>), MkList(<<a>>), MkList(<<a, b>>), Nil }
 CONSTANT NL
 VARIABLES l, done
 Init == l \in UNION { [1..k -> Elems] : k \in 0..NL } /\ done = FALSE
